@@ -169,7 +169,7 @@ def check(prog, rep, tier):
     rep.extra["explanation"] = EXPL
     rep.rule("C04.counter", "elements_added: +1 per slot filled, -1 per slot emptied, unchanged when absent, reset with the arrays", floor=3)
     rep.rule("C04.index-in-range", "every index into the remainder array and the bit vectors is in [0, size) on every path", floor=60)
-    rep.rule("C04.call-site-index", "every call passes in-range values for the callee's index parameters", floor=30)
+    rep.rule("C04.call-site-index", "every call passes in-range values for the callee's index parameters", floor=15)
     rep.rule("C04.geometry-lemma", "size = 1 << q, mod_size = size - 1, r = 32 - q, arrays of length size", floor=1)
     rep.rule("C04.no-duplicate", "_add is reached only when the element is not contained", floor=1)
     rep.rule("C04.reinsert-all", "resize captures the hashes before replacing the arrays and re-inserts every one; merge re-inserts every hash of the operand", floor=2)
